@@ -45,11 +45,14 @@ func runReplay(ctx *hx.Ctx, path string) {
 func main() {
 	if os.Getenv("VERIF_F4REAL_ONLY") != "" {
 		res, err := bftsim.F4Real()
+		if os.Getenv("VERIF_F4REAL_ONLY") == "own" {
+			res, err = bftsim.F4RealOwnProposal()
+		}
 		if res != nil {
 			for _, l := range res.Log {
 				fmt.Println(l)
 			}
-			fmt.Printf("conflict=%v %s(%s) vs %s(%s)\n", res.Conflict, res.A, res.NodeA, res.B, res.NodeB)
+			fmt.Printf("conflict=%v %s(%s) vs %s(%s) nonmonotone=%v %s: %s -> %s\n", res.Conflict, res.A, res.NodeA, res.B, res.NodeB, res.NonMonotone, res.MonoNode, res.MonoFrom, res.MonoTo)
 		}
 		if err != nil {
 			fmt.Println("F4Real:", err)
@@ -82,6 +85,19 @@ func main() {
 			ctx.Violation(bftsim.F4Class, "two honest nodes finalize conflicting checkpoints ("+res.A+" at "+res.NodeA+", "+res.B+" at "+res.NodeB+
 				") with one Byzantine validator of four; all blocks from the real packer/scheduler, all deliveries through consensus.Process, "+
 				"honest proposals on the proposer's own best block with its own ShouldVote", map[string]any{"kind": "f4-node-level", "log": res.Log}, true)
+		}
+	}
+	// the single-node consequence of F4: the same history until 18Y, then v1 imports 10X, 11X (finalizes 4X, best stays 18Y) and
+	// packs 19Y itself (finalizes 12Y): finalized moves to a conflicting checkpoint on ONE honest node
+	if res, err := bftsim.F4RealOwnProposal(); err != nil {
+		ctx.Cov.Count("f17-node-level:not-reproduced")
+		fmt.Fprintf(os.Stderr, "F17 node-level replay did not run to its end: %v\n", err)
+	} else {
+		ctx.Cov.Count("f17-node-level:run")
+		if res.NonMonotone && res.HonestOnBest {
+			ctx.Violation("property:"+bftsim.F17Class, "honest node "+res.MonoNode+" moves its finalized checkpoint from "+res.MonoFrom+" to "+res.MonoTo+
+				", which does not descend from it (own proposal on a best block off the finalized branch; one Byzantine validator of four; real packer, scheduler, consensus, engine)",
+				map[string]any{"kind": "f17-node-level", "log": res.Log}, true)
 		}
 	}
 	var cases []*bftsim.Case
